@@ -372,16 +372,107 @@ var evOdd = []string{
 	"'1.5'.toDecimal()", "'1e3'.toDecimal()", "'.5'.toDecimal()", "'5.'.toDecimal()", "'-0.50'.toDecimal()", "'abc'.toDecimal()", "true.toDecimal()", "7.toDecimal()", "'true'.toBoolean()", "'T'.toBoolean()", "'yes'.toBoolean()", "'maybe'.toBoolean()", "1.toBoolean()", "2.toBoolean()", "1.0.toBoolean()", "0.0.toBoolean()", "0.5.toBoolean()",
 	"%i.toString()", "%e.toString()", "%e.toInteger()", "%i.toInteger()", "%m.select($this.toString())", "%m.select($this.toInteger())", "%m.select($this.toDecimal())", "%m.select($this.toBoolean())", "%m.select($this.convertsToInteger())", "%m.select($this.convertsToDecimal())", "%m.select($this.convertsToBoolean())", "%m.select($this.convertsToString())",
 	"%i.convertsToInteger()", "%e.convertsToInteger()", "'x'.convertsToInteger()", "'7'.convertsToInteger()", "1.toString(1)", "1.toInteger(1)",
+	"@2020 + 1", "1 + @2020", "@2020 + @2021", "@2020 * 2 days", "@2020 / 0", "2 days + @2020", "@2020 - @2019", "@T10 + 1 day", "@T23:30 + 1 hour", "@T00:30 - 1 hour", "@T10 + 90 minutes", "@T10:30 + 30 seconds",
+	"@2020-01-31 + 1 month", "@2020-02-29 + 1 year", "@2020-02-29 - 4 years", "@2020-02-29 + 100 years", "@2020-03-31 - 1 month", "@2020 + 11 months", "@2020 + 12 months", "@2020-01 + 45 days", "@2020-01-01 + 1 hour", "@2020-01-01 + 1.5 days", "@2020-01-01 + 1 'mg'", "@2020-01-01 + 1 'd'",
+	"@2020-01-31T10:00:00+05:30 + 1 month", "@2019-12-31T23:30:00-03:30 + 1 hour", "@2020-02-29T10:30 + 36 hours", "@2020-02-29T10 + 90 minutes", "@2020T + 1 day", "@2020-02-29T10:30:00 + 500 milliseconds", "@2020-02-29T10:30:00.000 + 1 millisecond", "@2020-02-29T10:30:00Z - 1 second",
+	"@2020 = @2020", "@2020 = @2020-01", "@2020 < @2021", "@2020 < @2020-06", "@2020-02 > @2020-01-15", "@2020T = @2020", "@2020-01-01T10Z = @2020-01-01T11+01:00", "@2020-01-01T10:00 = @2020-01-01T10:00Z", "@T10 = @T10:00", "@T10 < @T11:30", "@2020 = @T10", "@2020 < @T10", "@2020 < 1",
+	"1 year = 1 'a'", "1 'mg' = 1 'kg'", "1 'mg' < 2 'mg'", "1 'mg' < 2", "2 < 3 'kg'", "1 'mg' + 1 'mg'", "1 'mg' + 1 'kg'", "1 'mg' + 1", "1 'mg' * 2", "-(1 'mg')", "(1 'mg').abs()", "1 year + 1 month", "1 'mg'.toString()", "@2020.toString()", "@2020 is Date", "@2020T is DateTime", "@T10 is Time", "1 'mg' is Quantity", "1 year is Quantity",
+	"@2020.toDate()", "@2020-02T.toDate()", "@2020-02-29T10:30:00+05:30.toDate()", "@2020-02.toDateTime()", "@2020-02-29.toDateTime()", "@2020-02-29T10:30.toDateTime()", "@T10:30.toTime()", "@2020.toTime()", "@T10.toDate()", "@T10.toDateTime()",
+	"'2020-02-29'.toDate()", "'2020-02'.toDate()", "'2020-02-29T10:30:00Z'.toDate()", "'2020-02-30'.toDate()", "'@2020'.toDate()", "'2020'.toDateTime()", "'2020-02-29T10:30:00+05:30'.toDateTime()", "'2020-02-29T10'.toDateTime()", "'10:30'.toTime()", "'T10:30'.toTime()", "'10:30:00.5'.toTime()", "'25:00'.toTime()", "'abc'.toTime()",
+	"'5 mg'.toQuantity()", "'5'.toQuantity()", "'5 \\'mg\\''.toQuantity()", "'1 year'.toQuantity()", "5.toQuantity()", "5.5.toQuantity()", "true.toQuantity()", "(1 'mg').toQuantity()", "'abc'.toQuantity()", "'5 mg'.toQuantity('g')", "@2020.toQuantity()",
+	"@2020.convertsToDate()", "@2020T.convertsToDate()", "'2020-02-30'.convertsToDate()", "'2020'.convertsToDateTime()", "@T10.convertsToTime()", "'10:30'.convertsToTime()", "1.convertsToDate()", "1.convertsToQuantity()", "'5 mg'.convertsToQuantity()", "'abc'.convertsToQuantity()", "@2020.convertsToQuantity()",
+	"@2020-02-29T10:30:00+05:30.toString()", "@2020-02.toString()", "@T10:30:00.500.toString()", "@2020-02-29T10:30:00.5Z.toString()", "(1.50 'mg').toString()", "(1 year).toString()", "(@2020-01-31 + 1 month).toString()", "(@2020-02-29T10:30:00 + 500 milliseconds).toString()",
+	"%t.toDate()", "%t.first().toDateTime()", "%dt.first().toDate()", "%dt.first().toString()", "%tm.first().toString()", "%q.first().toString()", "%t.select($this.toString())", "%t.select($this.toDateTime())", "%dt.select($this.toDate())", "%m.select($this.toDate())", "%m.select($this.convertsToQuantity())", "%m.select($this.toQuantity())", "%s.select($this.toTime())",
+	"@2020-13", "@2020-02-30", "@T25", "@2020-01-01T10:00:00+25:00", "@2020-01-01T", "@T10:60", "@2020-02-29T10:30:00.1234567891", "1 'it\\'s'", "1 years", "1 foo",
 	"007", "007 + 1", "1.50", "1.50 = 1.5", "0.10 + 0.20", "0.1 + 0.2 = 0.3", "1.0 div 0.3", "7 mod 2.5", "-7 div 2", "-7 mod 2", "7 div -2", "7 mod -2", "(-7.5) div 2", "(-7.5) mod 2", "10 / 4", "10 / 3", "2 / 3", "(-2) / 3", "1 / 3 * 3",
 }
 
+// evOutTokens: as outTokens, with Date / DateTime / Time results as the payload the model computes
+// (layout, components, instant, offset) instead of their text.
+func evOutTokens(o Outcome) string {
+	if o.TimedOut || o.Panicked || o.Err != nil {
+		return outTokens(o)
+	}
+	parts := []string{}
+	for _, it := range o.Coll {
+		if a, ok := it.(system.Any); ok {
+			if t, ok := temporalToken(a); ok {
+				parts = append(parts, t)
+				continue
+			}
+		}
+		parts = append(parts, outToken(it))
+	}
+	return "ok:[" + strings.Join(parts, ",") + "]"
+}
+
+// temporal and quantity literals -------------------------------------------
+
+var evDates = []string{"@2020", "@2020-02", "@2020-02-29", "@2019-12-31", "@2021-01-31", "@2000-02-29", "@1900-03-01", "@2020-01-01", "@2020-03"}
+var evDateTimes = []string{"@2020T", "@2020-02T", "@2020-02-29T", "@2020-02-29T10", "@2020-02-29T10:30", "@2020-02-29T10:30:00", "@2020-02-29T10:30:00.5", "@2020-02-29T10:30:00.000",
+	"@2020-02-29T10:30:00Z", "@2020-02-29T10:30:00+05:30", "@2020-02-29T23:30:00-03:30", "@2020-03-01T00:30:00+02:00", "@2019-12-31T23:59:59.999Z", "@2020-02-29T10Z", "@2020-02-29T10:30+01:00", "@2020-01-31T12:00:00+14:00", "@2020-02-29T10:30:00.123456"}
+var evTimes = []string{"@T10", "@T10:30", "@T10:30:00", "@T10:30:00.5", "@T23:59:59.999", "@T00:00", "@T10:30:00.000", "@T12:00:00.123456"}
+var evQtys = []string{"1 year", "2 years", "1 month", "13 months", "1 week", "3 days", "1 day", "36 hours", "90 minutes", "1 hour", "30 seconds", "1500 milliseconds", "1 'mg'", "2.5 'mg'", "1 'kg'", "1.5 years", "0.5 days",
+	"1 'year'", "1 'a'", "1 'mo'", "1 'd'", "1 'h'", "1 'min'", "1 's'", "1 'ms'", "1 'wk'", "1 '1'", "0 days", "12 months", "400 years", "1 second", "1 millisecond"}
+
+func (g *evGen) temporalLit() string {
+	switch g.r.Intn(3) {
+	case 0:
+		return Pick(g.r, evDates)
+	case 1:
+		return Pick(g.r, evDateTimes)
+	}
+	return Pick(g.r, evTimes)
+}
+
+// temporalExpr: a temporal value, possibly shifted by quantities (signs of the amounts included)
+func (g *evGen) temporalExpr(d int) string {
+	g.note("temporal")
+	base := g.temporalLit()
+	if g.r.Intn(5) == 0 {
+		base = Pick(g.r, []string{"%t.first()", "%t.last()", "%t[1]", "%dt.first()", "%tm.first()"})
+	}
+	for k := g.r.Intn(3); k > 0 && d > 0; k-- {
+		q := Pick(g.r, evQtys)
+		if g.r.Intn(6) == 0 {
+			q = "(-" + q + ")"
+		}
+		base = "(" + base + " " + Pick(g.r, []string{"+", "-"}) + " " + q + ")"
+	}
+	return base
+}
+
+// temporalProg: comparison / equality / collection functions over temporal values and quantities
+func (g *evGen) temporalProg(d int) string {
+	switch g.r.Intn(10) {
+	case 0, 1:
+		return g.temporalExpr(d)
+	case 2, 3:
+		return g.temporalExpr(d) + " " + Pick(g.r, []string{"=", "!=", "<", ">", "<=", ">="}) + " " + g.temporalExpr(d)
+	case 4:
+		return Pick(g.r, evQtys) + " " + Pick(g.r, []string{"=", "!=", "<", ">", "<=", ">=", "+", "-"}) + " " + Pick(g.r, evQtys)
+	case 5:
+		return "%t.where($this " + Pick(g.r, []string{"<", ">", "<=", ">=", "=", "!="}) + " " + g.temporalExpr(d-1) + ")"
+	case 6:
+		return Pick(g.r, []string{"%t", "%dt", "%tm", "%q"}) + "." + Pick(g.r, []string{"distinct()", "isDistinct()", "count()", "first()", "tail()", "exists($this = $this)", "select($this = $this)"})
+	case 7:
+		return "%t.select($this + " + Pick(g.r, evQtys) + ")"
+	case 8:
+		return "%t.intersect(%t.tail())"
+	}
+	if g.r.Intn(2) == 0 {
+		return g.temporalExpr(d) + "." + Pick(g.r, []string{"toString()", "toDate()", "toDateTime()", "toTime()", "convertsToDate()", "convertsToDateTime()", "toString().toDate()", "toString().toDateTime()", "toString().toTime()", "toDateTime().toDate()", "toQuantity()"})
+	}
+	return g.temporalExpr(d) + " is " + Pick(g.r, []string{"Date", "DateTime", "Time", "System.Date", "Quantity", "System.Any", "dateTime", "date"})
+}
+
 func (g *evGen) envLine() string {
-	names := []string{"i", "i2", "d", "s", "s2", "b", "m", "e", "one"}
+	names := []string{"i", "i2", "d", "s", "s2", "b", "m", "e", "one", "t", "dt", "tm", "q"}
 	parts := []string{}
 	for _, n := range names {
 		toks := []string{}
 		for _, v := range g.vars[n] {
-			toks = append(toks, valToken(v.(system.Any)))
+			toks = append(toks, strings.ReplaceAll(valToken(v.(system.Any)), ",", "/"))
 		}
 		parts = append(parts, hexs(n)+"="+strings.Join(toks, ","))
 	}
@@ -417,6 +508,12 @@ func (g *evGen) newEnv() {
 		}
 		return system.Integer(1)
 	})
+	mk("t", 1+n(3), func() system.Any { return system.MustParseDate(Pick(g.r, evDates)) })
+	mk("dt", n(3), func() system.Any { return system.MustParseDateTime(Pick(g.r, evDateTimes)) })
+	mk("tm", n(3), func() system.Any { return system.MustParseTime(Pick(g.r, evTimes)) })
+	mk("q", n(3), func() system.Any {
+		return system.MustParseQuantity(Pick(g.r, []string{"1", "2.5", "1.0", "12"}), Pick(g.r, []string{"mg", "kg", "month", "year", "days"}))
+	})
 	g.vars["e"] = system.Collection{}
 	g.vars["one"] = system.Collection{Pick(g.r, []system.Any{system.Integer(1), system.Integer(0), system.Boolean(true), system.Boolean(false), system.String("a"), system.Decimal(decimal.NewFromInt(2))})}
 }
@@ -429,7 +526,7 @@ func (g *evGen) run(c *Ctx, src, envLine string, opts []fhirpath.EvaluateOption)
 		}
 		return e.Evaluate([]fhir.Resource{}, opts...)
 	})
-	out := outTokens(o)
+	out := evOutTokens(o)
 	if strings.HasPrefix(out, "err:") {
 		if out == "err:compile" {
 			c.Count("ev:compile-error")
@@ -473,7 +570,9 @@ func evStream(c *Ctx, n int) {
 		}
 		d := 2 + g.r.Intn(3)
 		var src string
-		switch g.r.Intn(6) {
+		switch g.r.Intn(8) {
+		case 6, 7:
+			src = g.temporalProg(d)
 		case 0:
 			src = g.coll("", d)
 		case 1:
